@@ -152,6 +152,8 @@ def run(rep, tier):
             nm = o.d.get('name')
             if isinstance(nm, str) and o.cls.name in ('Rule', 'Class'):
                 user_defined.add(nm)
+        # free names of the route grammar's own inline Python are the grammar author's reads
+        user_defined |= {n for n in routes.user_python_names(m) if n.startswith('zz_')}
         for n in m.tree.body:
             # names a sub-grammar imports from its parent are the parent's user names / runtime
             if isinstance(n, ast.ImportFrom):
